@@ -10,6 +10,22 @@ use compio_runtime::{ResumeUnwind, Runtime, SpawnMeta};
 
 use crate::{ChildStderr, ChildStdin, ChildStdout};
 
+/// The polling driver reads and writes once the descriptor is ready: on a blocking
+/// pipe a write larger than the free space (or a read racing with another reader)
+/// would then block the whole runtime thread, and with it the reading of what the
+/// child writes back.
+pub(crate) fn set_nonblocking(fd: &impl std::os::fd::AsFd) -> io::Result<()> {
+    use rustix::fs::{OFlags, fcntl_getfl, fcntl_setfl};
+
+    if Runtime::with_current(|r| r.driver_type()).is_polling() {
+        let flags = fcntl_getfl(fd)?;
+        if !flags.contains(OFlags::NONBLOCK) {
+            fcntl_setfl(fd, flags | OFlags::NONBLOCK)?;
+        }
+    }
+    Ok(())
+}
+
 pub async fn child_wait(mut child: process::Child) -> io::Result<process::ExitStatus> {
     // Name the task: its location points here rather than into the code that
     // waited for the child, since this is an `async fn`.
